@@ -75,6 +75,38 @@ Definition judge_chunk (bs impl : bytes) : bytes :=
   | _ => str "bad:not-wellformed"
   end.
 
+(* handshake / ack shapes: [kind] selects the shape *)
+Definition judge_shape (kind bs expected : bytes) : bytes :=
+  match parse1 (unhex bs) with
+  | Some (v, []) =>
+      let shown := if bytes_eqb kind (str "helo") then show_helo v
+                   else if bytes_eqb kind (str "ping") then show_ping v
+                   else if bytes_eqb kind (str "pong") then show_pong v
+                   else show_ack v in
+      match shown with
+      | Some s => if bytes_eqb s expected then str "ok" else str "bad:value:" ++ s
+      | None => str "bad:not-a-" ++ kind
+      end
+  | Some (_, _) => str "bad:leftover"
+  | None => str "bad:not-msgpack"
+  end.
+
+(* a stamped Message/MessageExt: everything but the time must equal [expected] (rendered
+   with ts=0 in Message form), the time must be of the announced kind and lie in [lo, hi] *)
+Definition judge_stamped (kind bs expected lo hi : bytes) : bytes :=
+  match spec_parse shape_message (unhex bs) with
+  | Some (m, []) =>
+      match stamp_of m with
+      | Some (is_event, v) =>
+          if negb (Bool.eqb is_event (bytes_eqb kind (str "event"))) then str "bad:time-kind"
+          else if negb ((read_Z lo <=? v) && (v <=? read_Z hi))%Z then str "bad:time-outside-call:" ++ show_Z v
+          else if bytes_eqb (show_smsg (unstamp m)) expected then str "ok" else str "bad:value:" ++ show_smsg (unstamp m)
+      | None => str "bad:no-time"
+      end
+  | Some (_, _) => str "bad:leftover"
+  | None => str "bad:not-a-message"
+  end.
+
 Definition run_codec (e : bytes) (args : list bytes) : option bytes :=
   match args with
   | [tag; ts; rec; opt] =>
@@ -84,6 +116,7 @@ Definition run_codec (e : bytes) (args : list bytes) : option bytes :=
         Some (enc_check (U_forward Slice zero_forward) M_forward show_forward (norm_forward (mk_forward tag ts rec)) (unhex opt))
       else None
   | [tag; sec; nsec; rec; opt] =>
+      if is e "judge_stamped" then Some (judge_stamped tag sec nsec rec opt) else
       if is e "M_message_ext" then Some (show_bytes_res (M_message_ext (mk_message_ext tag sec nsec rec opt)))
       else if is e "Mchk_message" then
         (* args: tag ts rec opt impl *)
@@ -96,6 +129,7 @@ Definition run_codec (e : bytes) (args : list bytes) : option bytes :=
       else None
   | [a; b; c] =>
       if is e "judge_wire" then Some (judge_wire a b c) else
+      if is e "judge_shape" then Some (judge_shape a b c) else
       if is e "M_forward" then Some (show_bytes_res (M_forward (mk_forward a b c)))
       else if is e "M_packed" then Some (show_bytes_res (Ok (M_packed (mk_packed a b c))))
       else if is e "M_entry" then Some (show_bytes_res (M_entry {| e_ts := (read_Z a, read_N b); e_rec := desc_gval c |}))
@@ -103,7 +137,8 @@ Definition run_codec (e : bytes) (args : list bytes) : option bytes :=
   | [a; b] =>
       let p := parse_path a in
       let bs := unhex b in
-      if is e "judge_consumed" then Some (judge_consumed a b)
+      if is e "et_payload" then Some (hex (et_payload (read_Z a) (read_N b)))
+      else if is e "judge_consumed" then Some (judge_consumed a b)
       else if is e "judge_chunk" then Some (judge_chunk a b)
       else if is e "U_message" then Some (show_dec show_message (U_message p zero_message bs))
       else if is e "U_message_ext" then Some (show_dec show_message_ext (U_message_ext p zero_message_ext bs))
